@@ -144,6 +144,14 @@ class Run(object):
         CL.quiet()
         self.rnd, self.log, self.store = rnd, log, store
         self.leader, self.coord = leader, coord
+        self.gen, self.reset = gen, reset
+        # the same run in the vocabulary of consumer_log_lib's monitors (events / outputs per step / (lp, lc) at the end
+        # of every step): a wire request is an output, the answer that reaches the Consumer is an event
+        self.tr_events, self.tr_steps, self.tr_ends = [], [], []
+        self.cur = []
+        self.cur_event = ("other",)
+        self.api_commits = []        # (step, offset, generation, member) of every client.send_offset_commit_request call
+        self.wire_mismatch = None
         self.clock = Clock()
         self.reqs = {}
         self.nrid = 0
@@ -162,6 +170,7 @@ class Run(object):
         self.fetches = []            # (step, offset, max_bytes)
         self.escaped = None
         self.double_commit = None
+        self.moves = 0.0             # weight of leader / coordinator moves in gen_event
         self.step_no = 0
         self.log_events = []         # what the driver did (for replay files)
         self.done_blocks = []        # offsets whose processing completed successfully
@@ -170,6 +179,16 @@ class Run(object):
         real._send_bootstrap_request = lambda request: self.broker_request(-1, request)
         self.real = real
         self.brokers = {}
+        orig_commit = real.send_offset_commit_request
+
+        def send_offset_commit_request(group, payloads=None, fail_on_error=True, callback=None, group_generation_id=-1, consumer_id=''):
+            # what the Consumer asks its client to commit (the client may first have to find the coordinator: the frame
+            # leaves later, with the offset given here)
+            for pl in payloads or []:
+                self.api_commits.append((self.step_no, pl.offset, group_generation_id, consumer_id))
+                self.cur.append((CL.OUT_COMMIT, pl.offset, group_generation_id))
+            return orig_commit(group, payloads, fail_on_error, callback, group_generation_id, consumer_id)
+        real.send_offset_commit_request = send_offset_commit_request
         self.consumer = AC.Consumer(
             real, TOPIC, PART, self.processor, consumer_group=GROUP,
             auto_commit_every_n=acn, auto_commit_every_ms=(700 if acs else 0),
@@ -195,12 +214,20 @@ class Run(object):
         if k == K_COMMIT:
             [(t, p, off)] = br.req["parts"]
             self.commit_reqs.append((self.step_no, off, br.req.get("generation"), br.req.get("member")))
+            want = self.api_commits[-1][1:] if self.api_commits else None
+            if want != (off, br.req.get("generation"), br.req.get("member")) and self.wire_mismatch is None:
+                self.wire_mismatch = (self.step_no, (off, br.req.get("generation"), br.req.get("member")), want)
             others = [r for r in self.reqs.values() if r is not br and r.req["key"] == K_COMMIT and not r.done and not r.d.called]
             if others and self.double_commit is None:
                 self.double_commit = (self.step_no, rid, others[0].rid)
         elif k == K_FETCH:
             [(t, p, off, mx)] = br.req["parts"]
             self.fetches.append((self.step_no, off, mx))
+            self.cur.append((CL.OUT_FETCH, off, mx))
+        elif k == K_OFFSETS:
+            self.cur.append((CL.OUT_OFFREQ, br.req["parts"][0][2]))
+        elif k == K_OFETCH:
+            self.cur.append((CL.OUT_OFFFETCH,))
         return br.d
 
     def pending(self):
@@ -211,8 +238,12 @@ class Run(object):
         q = br.req
         k, corr = q["key"], q["corr"]
         br.done = True
+        if not err and k in (K_FETCH, K_OFFSETS) and br.node != self.leader:
+            err = 6                                  # NotLeaderForPartition
+        if not err and k in (K_COMMIT, K_OFETCH) and br.node != self.coord:
+            err = 16                                 # NotCoordinatorForGroup
         if k == K_METADATA:
-            brokers = [(1, b"broker1", 9092), (2, b"broker2", 9092)]
+            brokers = [(1, b"broker1", 9092), (2, b"broker2", 9092), (3, b"broker3", 9092)]
             topics = [(0, TOPIC.encode(), [(0, PART, self.leader, [1, 2], [1, 2])])]
             data = KS.enc_metadata((corr, brokers, topics))
         elif k == K_COORD:
@@ -220,12 +251,14 @@ class Run(object):
         elif k == K_OFFSETS:
             [(t, p, tm, mx)] = q["parts"]
             off = self.log.start if tm == CL.OFFSET_EARLIEST else self.log.end
+            self.cur_event = (CL.EV_REQ_FAIL, CL.FK_KAFKA) if err else (CL.EV_REQ_OK, off)
             data = KS.enc_offsets((corr, [(t.encode(), [(p, err, [off] if not err else [])])]))
         elif k == K_OFETCH:
             [(t, p)] = q["parts"]
             c = self.store.committed
             if not err and c is not None:
                 self.reported.append(c)
+            self.cur_event = (CL.EV_REQ_FAIL, CL.FK_KAFKA) if err else (CL.EV_REQ_OK, -1 if c is None else c)
             data = KS.enc_ofetch((corr, [(t.encode(), [(p, -1 if (c is None or err) else c, b"", err)])]))
         elif k == K_COMMIT:
             [(t, p, off)] = q["parts"]
@@ -237,12 +270,15 @@ class Run(object):
         elif k == K_FETCH:
             [(t, p, off, mx)] = q["parts"]
             if err:
+                self.cur_event = (CL.EV_REQ_FAIL, CL.FK_KAFKA)
                 data = KS.enc_fetch(q["ver"], (corr, 0, [(t.encode(), [(p, err, -1, b"")])]))
             else:
                 r = self.log.fetch(off, mx)
                 if r[0] == "oor":
+                    self.cur_event = (CL.EV_REQ_FAIL, CL.FK_OOR)
                     data = KS.enc_fetch(q["ver"], (corr, 0, [(t.encode(), [(p, 1, -1, b"")])]))
                 else:
+                    self.cur_event = (CL.EV_FETCH_OK, list(r[2]))
                     data = KS.enc_fetch(q["ver"], (corr, 0, [(t.encode(), [(p, 0, self.log.end, r[1])])]))
         else:
             raise ValueError("unexpected request key %r" % k)
@@ -252,6 +288,8 @@ class Run(object):
         from twisted.python.failure import Failure
         from afkak.common import KafkaUnavailableError
         br.done = True
+        if br.req["key"] in (K_FETCH, K_OFFSETS, K_OFETCH):
+            self.cur_event = (CL.EV_REQ_FAIL, CL.FK_KAFKA)
         br.d.errback(Failure(KafkaUnavailableError("scripted connection loss")))
 
     # ------------------------------------------------------------ application side
@@ -263,20 +301,29 @@ class Run(object):
         self.delivered.extend(offs)
         for m in msgs:
             self.values_seen.append((m.offset, m.message.key, m.message.value))
+        self.cur.append((CL.OUT_CALLPROC, len(offs)) + tuple(offs))
         inside, result = self.plan.pop(0) if self.plan else (0, 2)
         if inside == 1:
             try:
                 consumer.stop()
+                self.cur.append((CL.OUT_RET, 0))
             except Exception:
-                pass
+                self.cur.append((CL.OUT_RAISED, 0))
         elif inside == 2:
             self.do_commit()
+            self.cur.append((CL.OUT_RET, 0))
+        elif inside == 3:
+            try:
+                consumer.shutdown().addBoth(lambda r: None)
+                self.cur.append((CL.OUT_RET, 0))
+            except Exception:
+                self.cur.append((CL.OUT_RAISED, 0))
         if result == 0:
             self.done_blocks.extend(offs)
             return None
         if result == 1:
             raise CL.ProcessorBoom("scripted")
-        d = Deferred()
+        d = Deferred(lambda dd: self.cur.append((CL.OUT_CANCEL_PROC,)))
         self.procs.append((d, offs))
         return d
 
@@ -306,7 +353,7 @@ class Run(object):
     def enabled(self):
         c = self.consumer
         running = c._start_d is not None
-        ev = [("plan",)]
+        ev = [("plan",), ("move",)]
         ev.append(("start",) if not running else ("stop",))
         if running:
             ev += [("commit",), ("shutdown",)]
@@ -323,11 +370,20 @@ class Run(object):
         self.step_no += 1
         self.log_events.append(ev)
         c = self.consumer
+        self.cur = []
+        self.cur_event = ("other",)
         try:
             t = ev[0]
             if t == "start":
+                self.cur_event = (CL.EV_START, ev[1])
                 d = c.start(ev[1])
+                self.cur.append((CL.OUT_RET, 0))
                 d.addBoth(lambda r: setattr(self, "start_result", (self.step_no, r)) or None)
+            elif t == "move":
+                if ev[1] == "leader":
+                    self.leader = ev[2]
+                else:
+                    self.coord = ev[2]
             elif t == "stop":
                 c.stop()
             elif t == "shutdown":
@@ -335,8 +391,10 @@ class Run(object):
             elif t == "commit":
                 self.do_commit()
             elif t == "plan":
+                self.cur_event = (CL.EV_PLAN, ev[1], ev[2])
                 self.plan.append((ev[1], ev[2]))
             elif t == "proc_fire":
+                self.cur_event = (CL.EV_PROC_FIRE, 1 if ev[1] else 0)
                 d, offs = self.procs[0]
                 if ev[1]:
                     self.done_blocks.extend(offs)
@@ -364,6 +422,9 @@ class Run(object):
                 import traceback
                 self.escaped = (self.step_no, repr(e), traceback.format_exc()[-1500:])
         lc, lp = c.last_committed_offset, c.last_processed_offset
+        self.tr_events.append(self.cur_event)
+        self.tr_steps.append(self.cur)
+        self.tr_ends.append((CL.NONE if lp is None else lp, CL.NONE if lc is None else lc))
         if lc != self.last_lc:
             self.lc_seen.append((self.step_no, lc))
             self.last_lc = lc
@@ -374,7 +435,7 @@ class Run(object):
     def gen_event(self, start_choices, fault=0.15):
         rnd = self.rnd
         en = self.enabled()
-        w = {"plan": 5, "start": 12, "stop": 0.8, "commit": 3, "shutdown": 0.5, "proc_fire": 9, "answer": 22, "timer": 10}
+        w = {"plan": 5, "move": self.moves, "start": 12, "stop": 0.8, "commit": 3, "shutdown": 0.5, "proc_fire": 9, "answer": 22, "timer": 10}
         tot = sum(w[e[0]] for e in en)
         r = rnd.random() * tot
         for e in en:
@@ -384,8 +445,10 @@ class Run(object):
         t = e[0]
         if t == "start":
             return ("start", rnd.choice(start_choices))
+        if t == "move":
+            return ("move", rnd.choice(["leader", "leader", "coord"]), rnd.choice([1, 2, 3]))
         if t == "plan":
-            return ("plan", rnd.choice([0] * 14 + [1, 2, 2]), rnd.choice([0, 0, 0, 0, 0, 1, 2, 2]))
+            return ("plan", rnd.choice([0] * 14 + [1, 2, 2, 3]), rnd.choice([0, 0, 0, 0, 0, 1, 2, 2]))
         if t == "proc_fire":
             return ("proc_fire", rnd.choice([1, 1, 1, 1, 0]))
         if t == "timer":
@@ -406,12 +469,46 @@ class Run(object):
         return (t,)
 
 
-def run_life(rnd, log, store, steps, start_choices, fault=0.15, **cfg):
+def run_life(rnd, log, store, steps, start_choices, fault=0.15, moves=0.0, **cfg):
     run = Run(rnd, log, store, **cfg)
+    run.moves = moves
     for _ in range(steps):
         if run.escaped:
             break
         run.step(run.gen_event(start_choices, fault))
+    return run
+
+
+def directed_commit_error(rnd, log, store, err, on="commit", **cfg):
+    """a short scripted life: start, two blocks processed, commit(); the answer to the OffsetCommit frame (on="commit")
+    or to the OffsetFetch frame of start(OFFSET_COMMITTED) (on="ofetch") carries error code `err`; everything else is
+    answered honestly, timers fire, and the retried request (if any) succeeds"""
+    run = Run(rnd, log, store, **cfg)
+    errs = {K_COMMIT if on == "commit" else K_OFETCH: [err]}
+
+    def drain(n, until=lambda: False):
+        for _ in range(n):
+            if run.escaped or until():
+                return
+            pend = run.pending()
+            if pend:
+                br = pend[0]
+                lst = errs.get(br.req["key"])
+                run.step(("answer", br.rid, lst.pop(0) if lst else 0))
+            elif run.clock.getDelayedCalls():
+                # the commit retry first (the refetch timer of an idle consumer would otherwise always be the earliest)
+                calls = sorted(run.clock.getDelayedCalls(), key=lambda dc: dc.getTime())
+                idx = [i for i, dc in enumerate(calls) if getattr(dc.func, "__name__", "") == "_send_commit_request"]
+                run.step(("timer", idx[0] if idx else 0))
+            else:
+                return
+    for _ in range(3):
+        run.step(("plan", 0, 0))
+    run.step(("start", CL.OFFSET_COMMITTED if on == "ofetch" else CL.OFFSET_EARLIEST))
+    drain(14)
+    run.step(("commit",))
+    drain(120, lambda: bool(run.commit_results))
+    drain(4)
     return run
 
 
@@ -421,6 +518,34 @@ def replay_life(rnd_seed, log, store, events, **cfg):
     for ev in events:
         run.step(tuple(ev))
     return run
+
+
+def log_units_json(log):
+    return [[u.kind, u.magic, [[o, list(k) if k is not None else None, list(v) if v is not None else None] for (o, k, v) in u.entries]]
+            for u in log.units]
+
+
+def replay_composed(rp):
+    """replay file of a composed life (C02 / C03) -> exit status"""
+    import json
+    import random
+    log = LL.PartitionLog(random.Random(0), n=0, first=0)
+    for (kind, magic, ents) in rp.get("log_units", []):
+        log.units.append(LL.Unit(kind, magic, [(o, None if k is None else bytes(k), None if v is None else bytes(v)) for (o, k, v) in ents]))
+    if log.units:
+        log.start = log.units[0].entries[0][0]
+        log.next = log.units[-1].entries[-1][0] + 1
+    store = LL.OffsetStore(rp.get("store0"))
+    run = replay_life(rp.get("seed", 0), log, store, rp["events"], **rp["cfg"])
+    bad = monitors(run, rp.get("store0"))
+    if run.escaped:
+        bad.append(("no exception escapes a stimulus", "step %d: %s" % (run.escaped[0], run.escaped[1])))
+    print("delivered:", run.delivered)
+    print("fetch requests (step, offset, max_bytes):", run.fetches[:40])
+    print("commit requests:", run.commit_reqs)
+    print("acknowledged:", run.acked, "commit() results:", run.commit_results, "last_committed_offset history:", run.lc_seen)
+    print("monitor verdicts:", json.dumps(bad, indent=1, default=repr))
+    return 1 if bad else 0
 
 
 # ---------------------------------------------------------------- monitors
@@ -434,6 +559,18 @@ def monitors(run, store0):
     m = LL.mon_overlap(run.calls)
     if m:
         res.append(("C02_no_overlap", m))
+    # order / gaps / repeats / contiguity of the fetch offsets, over the wire requests and the answers given
+    m = LL.mon_log(run.tr_events, run.tr_steps, entries, run.reset)
+    if m:
+        res.append(("C02_delivered_is_log_segment (composed)", m))
+    # what the Consumer asks its client to commit = end of the most recent successfully completed block; nothing
+    # delivered at or below it is unprocessed; last_processed_offset
+    m = LL.mon_commit(run.tr_events, run.tr_steps, run.tr_ends)
+    if m:
+        res.append(("C03_commit_le_processed (composed)", m))
+    if run.wire_mismatch:
+        res.append(("C03 commit identity (offset, generation, member on the wire = what the Consumer asked for)",
+                    "step %d: OffsetCommit frame carries %r, the Consumer asked for %r" % run.wire_mismatch))
     # what the broker acknowledged or reported
     ok_values = set(run.acked) | set(run.reported) | ({store0} if store0 is not None else set())
     for (step, lc) in run.lc_seen:
@@ -452,8 +589,9 @@ def monitors(run, store0):
             res.append(("C03_commit_le_processed", "step %d: commit request for offset %r, which was not successfully processed (processed: ...%r)"
                         % (step, off, run.done_blocks[-6:])))
             break
-        if member != "member-7":
-            res.append(("C03 commit identity", "step %d: commit request carries member id %r" % (step, member)))
+        if member != "member-7" or gen != run.gen:
+            res.append(("C03 commit identity (value, generation, member)",
+                        "step %d: OffsetCommit frame carries generation %r, member %r; configured %r, 'member-7'" % (step, gen, member, run.gen)))
             break
     if run.double_commit:
         res.append(("C03_single_commit", "step %d: commit request %d sent while request %d is unanswered" % run.double_commit))
